@@ -94,12 +94,22 @@ def gen_case(rng, chk, nops, unequal):
             ops.append("own %d" % h)
             owners.add(h)
             chk.bump("take_ownership")
+        elif r < 0.96 and len(handles) > 1 and h in owners:
+            # the holder of an owner handle is gone without freeing it (a killed process): the name stays until
+            # somebody else takes ownership and frees
+            ops.append("abandon %d" % h)
+            handles.remove(h)
+            owners.discard(h)
+            free_ids.append(h)
+            chk.bump("abandon owner")
         elif len(handles) > 1 and h not in owners:
             handles.remove(h)
             free_ids.append(h)
             ops.append("close %d" % h)
             chk.bump("close non-owner")
         elif len(handles) == 1 and rng.random() < 0.6:
+            if h not in owners:
+                ops.append("own %d" % h)
             # the last handle, an owner, goes: the name is removed; whoever comes next creates a fresh, empty
             # buffer of the capacity it asks for (never the old bytes, never the old capacity)
             ops.append("close %d" % h)
@@ -126,6 +136,10 @@ def gen_case(rng, chk, nops, unequal):
 
 
 DIRECTED = [
+    # the creator's process is gone; the documented clean-up through a follower: take ownership, free; then a fresh buffer
+    ["new 0 8", "w 0 0102030405", "new 1 8", "abandon 0", "r 1 2", "own 1", "close 1", "pos", "new 2 3", "free 2", "used 2", "r 2 9", "w 2 0a0b0c", "pos"],
+    # … and without the clean-up the buffer lives on with its bytes, whatever size the next opener asks for
+    ["new 0 8", "w 0 0102030405", "new 1 8", "abandon 0", "close 1", "pos", "new 2 30", "free 2", "used 2", "r 2 9", "pos", "own 2", "close 2", "new 0 30", "free 0"],
     # owner goes, the next creator asks for another capacity: fresh and empty (take_ownership on a follower too)
     ["new 0 8", "w 0 0102030405", "new 1 8", "close 1", "own 0", "close 0", "pos", "new 2 3", "free 2", "used 2", "r 2 9", "w 2 0a0b0c", "w 2 0d", "r 2 2", "pos"],
     ["new 0 8", "w 0 0102030405", "new 1 0", "r 1 2", "close 1", "close 0", "pos", "new 1 20", "free 1", "r 1 30", "w 1 0708", "new 0 0", "r 0 1", "pos"],
@@ -158,24 +172,37 @@ def exhaustive(depth, caps=(1, 2, 3, 4)):
 
 
 def signature_of(ops, r):
-    """F6: some handle was opened with a non-zero size argument smaller than the capacity of the buffer it joined"""
-    cap, nopen = None, 0
+    """F6: some handle was opened with a non-zero size argument smaller than the capacity of the buffer it joined
+    (the protocol's life cycle is replayed: the name lives until an owner, as the last open handle, is closed)"""
+    cap, hs, owners = None, set(), set()
     for o in ops:
         t = o.split()
-        if t[0] == "new" and len(t) == 3:
-            size = int(t[2])
-            if nopen == 0 or cap is None:
+        if t[0] == "new" and len(t) == 3 and t[1].isdigit() and t[2].isdigit():
+            h, size = int(t[1]), int(t[2])
+            if h in hs:
+                continue
+            if cap is None:
                 if size == 0:
                     continue              # fails on a fresh name
-                cap, nopen = size, 1
+                cap, hs, owners = size, {h}, {h}
             else:
                 if 0 < size < cap:
                     return "handles-with-unequal-size-arguments"
-                nopen += 1
-        elif t[0] == "close" and nopen:
-            nopen -= 1                    # the protocol lets an owner go only as the last handle: nopen == 0 means the name is gone
+                hs.add(h)
+        elif t[0] == "own" and len(t) == 2 and t[1].isdigit() and int(t[1]) in hs:
+            owners.add(int(t[1]))
+        elif t[0] == "abandon" and len(t) == 2 and t[1].isdigit():
+            hs.discard(int(t[1]))
+            owners.discard(int(t[1]))
+        elif t[0] == "close" and len(t) == 2 and t[1].isdigit() and int(t[1]) in hs:
+            h = int(t[1])
+            if h in owners:
+                if len(hs) == 1:
+                    cap, hs, owners = None, set(), set()
+            else:
+                hs.discard(h)
         elif t[0] == "reset":
-            cap, nopen = None, 0
+            cap, hs, owners = None, set(), set()
     return None
 
 
